@@ -280,21 +280,46 @@ func runC11LL(seed int64, idx int) *c11Result {
 	pdt := time.Date(2024, 5, 6, 7, 8, 9, 0, time.UTC)
 	pl.Segs = []origin.Seg{{URI: "seg0.mp4", DurNS: 3 * st.SegDurNS[0], PDT: &pdt}}
 	var expHints []string
+	// every third Low-Latency case addresses its parts as byte ranges of one resource
+	ranged := (idx/6)%3 == 2
+	var rangeOff []uint64
+	if ranged {
+		var all []byte
+		for k := 0; k < nParts; k++ {
+			rangeOff = append(rangeOff, uint64(len(all)))
+			all = append(all, st.Segs[3+k]...)
+		}
+		u := fmt.Sprintf(form, 0)
+		site.Files[origin.Resolve(plURL, u)] = all
+		site.Kinds[origin.Resolve(plURL, u)] = "part"
+	}
 	for k := 0; k <= nParts; k++ {
 		pl.History = append(pl.History, origin.Window{First: 0, Count: 1})
 		var parts []origin.Part
 		for j := 0; j < k; j++ {
-			parts = append(parts, origin.Part{URI: fmt.Sprintf(form, j), DurNS: st.SegDurNS[0]})
+			pt := origin.Part{URI: fmt.Sprintf(form, j), DurNS: st.SegDurNS[0]}
+			if ranged {
+				pt = origin.Part{URI: fmt.Sprintf(form, 0), DurNS: st.SegDurNS[0], RangeLen: uint64(len(st.Segs[3+j])), RangeStart: rangeOff[j]}
+			}
+			parts = append(parts, pt)
 		}
 		pl.LLParts = append(pl.LLParts, parts)
 		if k < nParts {
 			u := fmt.Sprintf(form, k)
+			if ranged {
+				u = fmt.Sprintf(form, 0)
+				pl.LLHintRange = append(pl.LLHintRange, [2]uint64{rangeOff[k], uint64(len(st.Segs[3+k]))})
+				expHints = append(expHints, fmt.Sprintf("%s|bytes=%d-%d", origin.ResolveFull(plURL, u), rangeOff[k], rangeOff[k]+uint64(len(st.Segs[3+k]))-1))
+			} else {
+				pl.LLHintRange = append(pl.LLHintRange, [2]uint64{})
+				site.Files[origin.Resolve(plURL, u)] = st.Segs[3+k]
+				site.Kinds[origin.Resolve(plURL, u)] = "part"
+				expHints = append(expHints, origin.ResolveFull(plURL, u)+"|")
+			}
 			pl.LLHint = append(pl.LLHint, u)
-			site.Files[origin.Resolve(plURL, u)] = st.Segs[3+k]
-			site.Kinds[origin.Resolve(plURL, u)] = "part"
-			expHints = append(expHints, origin.ResolveFull(plURL, u))
 		} else {
 			pl.LLHint = append(pl.LLHint, "") // the hint disappears: the client must stop with an error
+			pl.LLHintRange = append(pl.LLHintRange, [2]uint64{})
 		}
 	}
 	site.Playlists[plURL] = pl
@@ -350,7 +375,7 @@ func runC11LL(seed int64, idx int) *c11Result {
 			}
 		case site.Kinds[base] == "part":
 			seq += "H"
-			hints = append(hints, e.URL)
+			hints = append(hints, e.URL+"|"+e.Range)
 		case site.Kinds[base] == "init":
 			seq += "I"
 		default:
@@ -371,7 +396,10 @@ func runC11LL(seed int64, idx int) *c11Result {
 	if skip {
 		res.obs["ll_skip_advertised"]++
 	}
-	res.sig = fmt.Sprintf("ll|%d|%v|%s|%d", nParts, skip, form, len(tracks))
+	if ranged {
+		res.obs["ll_cases_with_byte_range_hints"]++
+	}
+	res.sig = fmt.Sprintf("ll|%d|%v|%s|%d|%v|%s", nParts, skip, form, len(tracks), ranged, ownQuery)
 	res.desc = map[string]any{"seed": seed, "index": idx, "mode": "low-latency", "parts": nParts, "skip": skip, "requests": seq, "wait": fmt.Sprint(run.WaitErr)}
 	return res
 }
